@@ -55,6 +55,10 @@ func genFOBase(r *rand.Rand, sh foShape) *Scenario {
 		fo.API, fo.Backend = "failoverOf", "shardedOf"
 	}
 
+	if fo.API == "failover" && chance(r, 0.35) {
+		fo.ValRep = pick(r, "slice", "map", "box", "ptr")
+	}
+
 	fo.Cfg = FOConfig{
 		SyncUpdate: chance(r, 0.4), SyncRead: chance(r, 0.4), FailHard: chance(r, 0.3),
 		MaxStalenessNs:    pick(r, int64(0), 0, 10*sec, 10*sec, 500*ms),
@@ -324,6 +328,7 @@ func shrinkFO(sc *Scenario, yield func(c *Scenario) bool) {
 			c.Cfg.ObserveMutability = false
 			return ok
 		},
+		func(c *FOScenario) bool { ok := c.ValRep != ""; c.ValRep = ""; return ok },
 		func(c *FOScenario) bool { ok := c.Cfg.SyncRead; c.Cfg.SyncRead = false; return ok },
 		func(c *FOScenario) bool { ok := c.Cfg.SyncUpdate; c.Cfg.SyncUpdate = false; return ok },
 		func(c *FOScenario) bool { ok := c.Cfg.FailHard; c.Cfg.FailHard = false; return ok },
